@@ -24,11 +24,12 @@ func (r rapidSource) Int(label string, n int) int      { return rapid.IntRange(0
 
 // the events a server can send on its own
 var eventKinds = []string{"pong", "ack", "new-session", "bad-msg", "state-info", "all-info", "detailed-info", "new-detailed-info", "future-salts",
+	"bad-salt-unknown", "bad-salt-answered", "rotate",
 	"result-unknown", "result-again", "error-unknown", "update", "updates-too-long", "unknown-ctor", "truncated", "empty-body", "empty-container", "nested-container", "raw-soup", "close",
 	"cut:result-unknown", "cut:pong", "cut:ack", "cut:bad-msg", "cut:state-info", "cut:update", "cut:nested-container", "cut:future-salts"}
 
 var wellFormedService = map[string]bool{"pong": true, "ack": true, "new-session": true, "update": true, "updates-too-long": true, "state-info": true, "all-info": true,
-	"detailed-info": true, "new-detailed-info": true}
+	"detailed-info": true, "new-detailed-info": true, "bad-salt-unknown": true, "bad-salt-answered": true, "rotate": true}
 
 type Event struct {
 	Kind           string
@@ -59,6 +60,17 @@ func build(s scen.Source, events []Event) *scen.Scenario {
 		case "new-session":
 			salt++
 			steps = append(steps, scen.Step{Op: "new-session", Salt: salt})
+		case "bad-salt-unknown", "bad-salt-answered":
+			salt++
+			p := &scen.PushSpec{Kind: strings.TrimPrefix(ev.Kind, "bad-salt-"), Arg: ev.Arg, InContainer: ev.InContainer}
+			if ev.Kind == "bad-salt-answered" {
+				p.Arg = 7
+			}
+			steps = append(steps, scen.Step{Op: "bad-salt", Salt: salt, Push: p})
+		case "rotate":
+			// silent rotation: the probe that follows is rejected with bad_server_salt and has to be repeated by the client
+			salt++
+			steps = append(steps, scen.Step{Op: "rotate", Salt: salt})
 		case "result-again":
 			steps = append(steps, scen.Step{Op: "answer", Container: ev.InContainer, Items: []scen.AnsItem{{Tag: 7, Again: true, Gzip: ev.Gzip}}})
 		default:
